@@ -239,7 +239,17 @@ def synthesize(block, n, strategy_name):
             r = sp.synthesize_trials(block, n, strat)
         return ("ok", r)
     except Exception as e:  # noqa
-        return ("error", type(e).__name__, str(e)[:300])
+        return ("error", type(e).__name__, "[@%s] %s" % (raise_site(e), str(e)[:300]))
+
+
+def raise_site(e):
+    """Name of the innermost library function on the traceback (identifies the call site of a finding)."""
+    import traceback
+    site = "?"
+    for fr in traceback.extract_tb(e.__traceback__):
+        if "sweetpea" in fr.filename:
+            site = fr.name.lstrip("_") or fr.name
+    return site
 
 
 def user_factor_names(program, bid=None):
